@@ -21,7 +21,7 @@ print("model driver:", msg)
 if not ok:
     sys.exit(1)
 import os
-for v in sorted(os.listdir("harness")):
+for v in ("v1", "v2"):
     b, out = core.build_harness(v)
     print("harness", v, "->", b)
     if b is None:
